@@ -6,6 +6,7 @@ import (
 	"hash/fnv"
 	"os"
 	"strconv"
+	"strings"
 	"testing"
 	"time"
 
@@ -37,6 +38,9 @@ type WorkerSummary struct {
 	SimNanos     int64          `json:"sim_ns"`
 	Stats        *RunStats      `json:"stats"`
 	Fingerprints []string       `json:"fingerprints,omitempty"`
+	Seeds        []uint64       `json:"seeds,omitempty"` // parallel to Fingerprints
+	LastResults  string         `json:"last_results,omitempty"`
+	LastLog      string         `json:"last_log,omitempty"`
 	Cases        int            `json:"cases,omitempty"`
 	Executions   int            `json:"executions,omitempty"`
 	Observable   int            `json:"observable,omitempty"`
@@ -123,6 +127,16 @@ func progress(s string) {
 	}
 }
 
+func resultLines(log string) string {
+	var out []string
+	for _, l := range strings.Split(log, "\n") {
+		if strings.HasPrefix(l, "result ") {
+			out = append(out, l)
+		}
+	}
+	return strings.Join(out, "\n")
+}
+
 func hashKey(s string) uint64 {
 	h := fnv.New64a()
 	h.Write([]byte(s))
@@ -166,7 +180,13 @@ func TestSim(t *testing.T) {
 		if role == "c20gen" {
 			prop = "C20"
 		}
-		for seed := from; seed < to; seed++ {
+		reverse := os.Getenv("SIM_ORDER") == "reverse"
+		for i := from; i < to; i++ {
+			seed := i
+			if reverse {
+				// Same seeds, opposite history.
+				seed = to - 1 - (i - from)
+			}
 			// c20gen: even seeds enumerate one generated case fully;
 			// odd seeds run one generated multi-task scenario.
 			if role == "c20gen" && seed%2 == 0 {
@@ -208,6 +228,7 @@ func TestSim(t *testing.T) {
 			sum.Scenarios++
 			mergeStats(sum.Stats, rep.Stats)
 			sum.Fingerprints = append(sum.Fingerprints, rep.Fingerprint)
+			sum.Seeds = append(sum.Seeds, seed)
 			if role == "c20gen" {
 				for _, tk := range rep.Outcomes {
 					for _, o := range tk {
@@ -287,6 +308,44 @@ func TestSim(t *testing.T) {
 		mergeStats(sum.Stats, rep.Stats)
 		sum.Fingerprints = []string{rep.Fingerprint}
 		sum.Violations = []FoundViolation{{Seed: sc.Seed, Report: rep}}
+		finish()
+
+	case "seq":
+		// A history: several scenarios executed one after the other in this
+		// process. Reports every fingerprint and the result lines of the
+		// last scenario, so the driver can compare "after this history"
+		// with "alone in a fresh process" (C19.history).
+		data, err := os.ReadFile(os.Getenv("SIM_SCENARIO"))
+		if err != nil {
+			die(2, "harness: %v", err)
+		}
+		var list struct {
+			Scenarios []json.RawMessage `json:"scenarios"`
+		}
+		if err := json.Unmarshal(data, &list); err != nil {
+			die(2, "harness: %v", err)
+		}
+		for i, raw := range list.Scenarios {
+			sc, err := ParseScenario(raw)
+			if err != nil {
+				die(2, "harness: scenario %d: %v", i, err)
+			}
+			progress(fmt.Sprintf("seq %d", i))
+			rep, err := RunScenario(t, sc, true)
+			if err != nil {
+				harness(err, fmt.Sprintf("seq scenario %d", i))
+			}
+			sum.Scenarios++
+			mergeStats(sum.Stats, rep.Stats)
+			sum.Fingerprints = append(sum.Fingerprints, rep.Fingerprint)
+			sum.LastResults = resultLines(rep.Log)
+			sum.LastLog = rep.Log
+			if len(rep.Violations) > 0 && i == len(list.Scenarios)-1 {
+				rep.Outcomes = nil
+				rep.Log = ""
+				sum.Violations = append(sum.Violations, FoundViolation{Seed: sc.Seed, Report: rep})
+			}
+		}
 		finish()
 
 	case "witness":
